@@ -605,6 +605,7 @@ def r11(cx, rec):
 def r13(cx, rec):
     from rules import C10
     C10.fresh_assignment(cx, rec)
+    C10.cancel_clears_state(cx, rec)
 
 
 @TABLE.rule('12', 'K8', 'the manager\'s record of what a peer is fetching (Peer.piece_index) changes to Some(i) only together with a request for i, '
